@@ -65,8 +65,9 @@ class Loader():
             pypyr.pipedef.PipelineDefinition: Yaml payload and loader info
                 metadata for the pipeline.
         """
-        # str keys perform better than tuples in dicts
-        normalized_name = f'{parent}+{name}' if parent else name
+        # a tuple, not a joined str: '+' can occur in parent and name, so
+        # ('dir/a', 'b+c') and ('dir/a+b', 'c') must not share a key.
+        normalized_name = (str(parent), name) if parent else name
         return self._pipeline_cache.get(
             normalized_name,
             lambda: self._load_pipeline(name, parent))
